@@ -4,7 +4,7 @@ from .pdus import *  # noqa: F403
 from spacepackets.ecss.tc import PusTc
 from spacepackets.ecss.tm import PusTm
 from spacepackets.uslp.frame import (TransferFrame, TransferFrameDataField, TfdzConstructionRules, UslpProtocolIdentifier,
-                                     FrameType)
+                                     FrameType, FixedFrameProperties, VarFrameProperties)
 from spacepackets.uslp.header import PrimaryHeader, TruncatedPrimaryHeader
 
 PROPERTY = "C11"
@@ -108,6 +108,14 @@ def h_setter(ctx, kind, cfg, scen):
             o = FinishedPdu(b.conf, FinishedParams(vals["cond"], vals["deliv"], vals["fstat"], init_r, vals["fl"]))
             o.file_store_responses = [sym_fs_response(ctx, "mid_resp", (1, 1), (), 1)[0]]
             o.file_store_responses = vals["resps"]
+        elif scen["what"] == "responses-inplace":
+            # the caller keeps its list, changes it in place and hands the same list object over again
+            lst = [sym_fs_response(ctx, "init_resp")[0]] if scen["init"] else []
+            o = FinishedPdu(b.conf, FinishedParams(vals["cond"], vals["deliv"], vals["fstat"], lst, vals["fl"]))
+            o.file_store_responses = lst
+            o.pack()
+            lst[:] = vals["resps"]
+            o.file_store_responses = lst
         elif scen["what"] == "fault":
             init = sym_entity_tlv(ctx, "init_fl", 2)[0] if scen["init"] else None
             o = FinishedPdu(b.conf, FinishedParams(vals["cond"], vals["deliv"], vals["fstat"], list(vals["resps"]), init))
@@ -126,6 +134,13 @@ def h_setter(ctx, kind, cfg, scen):
             o = MetadataPdu(b.conf, mk_params(vals["src"], vals["dst"]), init)
             o.options = [CfdpTlv(6, ctx.octets("mid_opt", 1)), CfdpTlv(2, ctx.octets("mid_opt2", 0))]
             o.options = vals["opts"]
+        elif scen["what"] == "options-inplace":
+            lst = [CfdpTlv(5, ctx.octets("init_opt", 2))] if scen["init"] else []
+            o = MetadataPdu(b.conf, mk_params(vals["src"], vals["dst"]), lst)
+            o.options = lst
+            o.pack()
+            lst[:] = vals["opts"] or []
+            o.options = lst
         elif scen["what"] == "source":
             o = MetadataPdu(b.conf, mk_params(ctx.text("init_src", scen["init"]), vals["dst"]), vals["opts"])
             o.source_file_name = None
@@ -142,6 +157,17 @@ def h_setter(ctx, kind, cfg, scen):
             o = NakPdu(copy.copy(b.conf), vals["start"], vals["end"], init)
             o.segment_requests = [(1, 2), (3, 4), (5, 6)]
             o.segment_requests = vals["segs"]
+        elif scen["what"] == "segments-inplace":
+            b = build(ctx, "nak", cfg, dict(nseg=scen["final"]))
+            vals = b.extra["vals"]
+            lst = [(ctx.int("i_a", 0, 255), ctx.int("i_b", 0, 255))] * scen["init"]
+            o = NakPdu(copy.copy(b.conf), vals["start"], vals["end"], lst)
+            o.segment_requests = lst
+            o.pack()
+            got = o.segment_requests       # the idiom: fetch, change in place, assign back
+            work = got if got is not None else lst
+            work[:] = vals["segs"] or []
+            o.segment_requests = work
         else:
             # file flag setter: construct with the other flag, switch to cfg's flag; values fit 32 bits
             b = build(ctx, "nak", cfg, dict(nseg=scen["final"]))
@@ -279,6 +305,26 @@ def h_uslp(ctx, rule, n0, n1, iz, fecf, ocf, vcf):
     ctx.holds("octets == those of a freshly constructed frame with the final data zone", raw == fresh.pack())
     ctx.holds("data field length tracks the data zone", o.tfdf.len() == (3 if fixed else 1) + n1)
     ctx.holds("packing twice yields identical octets", o.pack() == raw)
+    # the same on a frame that was decoded rather than constructed: lengths right after decoding, after re-deriving the frame
+    # length, and after a data-zone assignment
+    if fixed:
+        props = FixedFrameProperties(total, bool(iz), bool(fecf), iz or None, fecf or None)
+        e, d = call(TransferFrame.unpack, raw, FrameType.FIXED, props)
+    else:
+        props = VarFrameProperties(bool(iz), bool(fecf), 8, iz or None, fecf or None)
+        e, d = call(TransferFrame.unpack, raw, FrameType.VARIABLE, props)
+    if e is not None:
+        ctx.fail("the packed frame does not decode", exc_name(e))
+        return
+    ctx.holds("decoded frame: reported lengths == number of packed octets", sym_and(d.len() == total, d.tfdf.len() == (3 if fixed else 1) + n1,
+                                                                                 d.pack() == raw))
+    d.set_frame_len_in_header()
+    ctx.holds("decoded frame: re-deriving the frame length changes nothing", sym_and(d.header.frame_len == total - 1, d.pack() == raw))
+    d.tfdf.tfdz = z0
+    d.set_frame_len_in_header()
+    r0 = d.pack()
+    ctx.holds("decoded frame after a data-zone assignment: lengths follow", sym_and(
+        d.len() == len(r0), len(r0) == total - n1 + n0, ((r0[4] << 8) | r0[5]) == total - n1 + n0 - 1))
 
 
 def cases(tier):
@@ -289,13 +335,16 @@ def cases(tier):
         "finished": [("resp-%d-to-%d%s" % (i, f, "-fl" if fl else ""), dict(what="responses", init=i, nresp=f, fl=fl))
                      for i in (0, 1) for f in (0, 1, 2) for fl in (None, 1)] +
                     [("fault-%d-to-%s-r%d" % (i, fl, r), dict(what="fault", init=i, nresp=r, fl=fl)) for i in (0, 1) for fl in (None, 1) for r in (0, 1)] +
-                    [("cond-r%d%s" % (r, "-fl" if fl else ""), dict(what="cond", nresp=r, fl=fl)) for r in (0, 1) for fl in (None, 1)],
+                    [("cond-r%d%s" % (r, "-fl" if fl else ""), dict(what="cond", nresp=r, fl=fl)) for r in (0, 1) for fl in (None, 1)] +
+                    [("resp-inplace-%d-to-%d" % (i, f), dict(what="responses-inplace", init=i, nresp=f, fl=None)) for i in (0, 1) for f in (0, 1, 2) if i != f],
         "metadata": [("opts-%d-to-%s" % (i, f), dict(what="options", init=i, var=dict(nopts=f))) for i in (0, 1) for f in (None, 0, 1, 2)] +
+                    [("opts-inplace-%d-to-%s" % (i, f), dict(what="options-inplace", init=i, var=dict(nopts=f))) for i in (0, 1) for f in (0, 1, 2) if i != f] +
                     [("src-%s-to-%s" % (shape(i), shape(f)), dict(what="source", init=i, var=dict(src=f, dst=(1,)))) for i in ((), (1, 1))
                      for f in (None, (), (1,), (2,))] +
                     [("dst-%s-to-%s" % (shape(i), shape(f)), dict(what="dest", init=i, var=dict(src=(1,), dst=f, nopts=1))) for i in ((), (1, 1))
                      for f in (None, (), (1,), (2,))],
         "nak": [("segs-%s-to-%s" % (i, f), dict(what="segments", init=i, final=f)) for i in (None, 0, 1) for f in (None, 0, 1, 2)] +
+               [("segs-inplace-%s-to-%s" % (i, f), dict(what="segments-inplace", init=i, final=f)) for i in (0, 1, 2) for f in (0, 1, 2) if i != f] +
                [("fileflag-s%s" % f, dict(what="flag", final=f)) for f in (None, 1, 2)],
         "keepalive": [("fileflag", dict())],
         "filedata": [("data-%d-to-%d%s" % (i, f, "-m" if m is not None else ""), dict(what="data", init=i, var=dict(ndata=f, nmeta=m)))
